@@ -175,6 +175,8 @@ def to_kind(v, kind):
     """Coerce a value to the z3 term of a declared slot kind."""
     if kind == "any":
         return to_any(v)
+    if type(v).__name__ == "SeqVal" and kind in ("bytes", "qstr"):
+        return v.term
     if v is None:
         raise Unsupported(f"None stored in a slot of kind {kind}")
     k, t = lift(v)
